@@ -91,17 +91,18 @@ type Node struct {
 	Spec NodeSpec
 	ln   net.Listener
 
-	mu       sync.Mutex
-	chain    []*Block
-	index    map[chainhash.Hash]int32
-	conns    []*conn
-	recv     []Recv
-	lastRecv time.Time
-	live     int
-	accepted int
-	refused  int
-	closedBy int // connections closed by the remote side (the service)
-	done     bool
+	mu           sync.Mutex
+	chain        []*Block
+	index        map[chainhash.Hash]int32
+	conns        []*conn
+	recv         []Recv
+	lastRecv     time.Time
+	scriptCloses int // connections closed by the CloseAt script
+	live         int
+	accepted     int
+	refused      int
+	closedBy     int // connections closed by the remote side (the service)
+	done         bool
 	// Offending marks header hashes whose delivery is an offence (forbidden / checkpoint-contradicting headers).
 	Offending map[chainhash.Hash]bool
 	// Insert, if set, may replace the headers of a reply (fault injection: forbidden / contradicting headers).
@@ -376,6 +377,9 @@ func (n *Node) onGetHeaders(cn *conn, m *wire.MsgGetHeaders) bool {
 	}
 	n.mu.Unlock()
 	if spec.CloseAt > 0 && k == spec.CloseAt && !spec.CloseAfter {
+		n.mu.Lock()
+		n.scriptCloses++
+		n.mu.Unlock()
 		n.closeConn(cn, false)
 		return false
 	}
@@ -410,6 +414,9 @@ func (n *Node) onGetHeaders(cn *conn, m *wire.MsgGetHeaders) bool {
 	}
 	n.mu.Unlock()
 	if spec.CloseAt > 0 && k == spec.CloseAt && spec.CloseAfter {
+		n.mu.Lock()
+		n.scriptCloses++
+		n.mu.Unlock()
 		n.closeConn(cn, false)
 		return false
 	}
@@ -559,6 +566,7 @@ type Stats struct {
 	Accepted, Refused, Live, ClosedByRemote int
 	GetHeaders                              int
 	LastRecv                                time.Time
+	ScriptCloses                            int
 }
 
 // Stat returns counters.
@@ -571,7 +579,7 @@ func (n *Node) Stat() Stats {
 			g++
 		}
 	}
-	return Stats{Accepted: n.accepted, Refused: n.refused, Live: n.live, ClosedByRemote: n.closedBy, GetHeaders: g, LastRecv: n.lastRecv}
+	return Stats{Accepted: n.accepted, Refused: n.refused, Live: n.live, ClosedByRemote: n.closedBy, GetHeaders: g, LastRecv: n.lastRecv, ScriptCloses: n.scriptCloses}
 }
 
 // Received returns a copy of the receive log.
